@@ -36,3 +36,33 @@ Section Canon.
         map_region (fun x => rank leqb x ln) (fun x => rank seqb x sn) m
     end.
 End Canon.
+
+(* ---- order-hint keys up to renaming.  The property asks for matching keys on the two nodes of a hint and
+   prescribes no numbering; keys only have to be distinct within one region.  Every key on a child of a
+   region, and both keys of every hint of that region, are replaced by the position of the key's first
+   occurrence among the keys of the region's children (in child order); one renaming per region. *)
+Section CanonKeys.
+  Context {L Sy : Type}.
+  Definition rk (kl : list Z) (k : Z) : Z := Z.of_nat (rank Z.eqb k kl).
+  Definition rk_hint (kl : list Z) (ab : Z * Z) : Z * Z := (rk kl (fst ab), rk kl (snd ab)).
+  Fixpoint ck_node (kl : list Z) (e : enode L Sy) : enode L Sy :=
+    match e with
+    | ENode op sg i o regs keys meta =>
+        ENode op sg i o
+              (map (fun r => match r with
+                             | ERegion k s t ch h =>
+                                 let kl' := flat_map e_keys ch in
+                                 ERegion k s t (map (ck_node kl') ch) (map (rk_hint kl') h)
+                             end) regs)
+              (map (rk kl) keys) meta
+    end.
+  Definition canon_keys (r : eregion L Sy) : eregion L Sy :=
+    match r with
+    | ERegion k s t ch h =>
+        let kl := flat_map e_keys ch in ERegion k s t (map (ck_node kl) ch) (map (rk_hint kl) h)
+    end.
+End CanonKeys.
+
+(* the comparison of the correspondence check: link names, symbols and order-hint keys up to renaming *)
+Definition canon_full {L Sy} (leqb : L -> L -> bool) (seqb : Sy -> Sy -> bool) (m : eregion L Sy) : eregion nat nat :=
+  canon_keys (canon leqb seqb m).
